@@ -87,6 +87,10 @@ pub fn sizes(thorough: bool, seed: u64) -> Vec<usize> {
     if thorough {
         v.extend([65_535, (1 << 17) - 1, 1 << 19, (1 << 21) - 4, (1 << 21) + 3, (1 << 22) - 9, (1 << 23) - 2, (1 << 24) - 3, (1 << 25) + 1, (1 << 26) - 1, 100_000_003, (1 << 27) + 2]);
     }
+    // thresholds the code itself mentions (harvested integer literals and their small products) above 64 KiB
+    for n in crate::pgen::numeric_literals().iter().cloned().filter(|n| *n > 65_536 && *n <= (64 << 20)).take(if thorough { 24 } else { 6 }) {
+        v.extend([n - 1, n + 1]);
+    }
     // log-uniform random sizes in [64 KiB, 96 MiB]
     let mut rng = Rng::new(seed ^ 0x1a46e);
     for _ in 0..(if thorough { 12 } else { 3 }) {
